@@ -2,30 +2,27 @@
     Only statements; every proof is [exact <lemma from IndProofs>]; all vocabulary is defined in
     model/Adaptors.v.  Everything is quantified over an ARBITRARY inner object
     [I : inner S E Item Data] (any state type, any step functions: short transfers, errors,
-    Pending, lies) and over the [variant] of the code: [current_code] = /repo HEAD,
-    [patched_code] = HEAD + the four candidate patches docs/patches/C17-*.diff.
+    Pending, lies).  The code under verification is [head_code] = /repo HEAD (6ff82af), which
+    contains the four fixes this check caused last (7fc986e, 3a319c2, c811d79, 2747e49).
 
     How to read this file (docs/C17.md has the same table):
-    * PROPERTY theorems relate the adaptor to [meets_spec] = the property text for one call
-      (same result and inner state as the bare call, bar moved by [effect_of], written from the
-      text, independent of the code; three documented Interpretations I1-I3).
-        full strength, patched tree : C17_step_patched, C17_transparent_patched, C17_counts_patched,
-                                      C17_never_panics_patched, C17_programs_patched,
-                                      C17_exhaustion_stream_patched
-        full strength, every tree   : C17_exhaustion_iterator, C17_finish_behaviour, C17_rayon_*
-        restricted ([_partial]: outside the decidable classes [known_dev] in which a variant is
-        known to deviate)           : C17_step_partial, C17_transparent_partial, C17_counts_partial,
-                                      C17_programs_partial
-        refutations on HEAD         : C17_*_refuted (one vm_compute witness per class, each replayed
-                                      on the implementation by the corpus of harness/src/bin/c17.rs)
-    * TRANSCRIPTION lemmas say what the modelled code does in a deviating class or under an
-      Interpretation; they are not the property: C17_panics_iff_readbuf_shrunk,
-      C17_stream_size_hint_default, C17_exhaustion_stream_current, C17_stream_refinish_observable,
-      C17_poll_write_vectored_default, C17_is_write_vectored_default,
-      C17_read_exact_err_counts_nothing, C17_rayon_check_order.
-    * SPEC-SHAPE lemmas are about [effect_of] alone (what the specification prescribes):
-      C17_err_counts_nothing, C17_pending_counts_nothing, C17_poll_read_counts_filled_growth,
-      C17_position_closed_form, C17_position_after_seek. *)
+    * PROPERTY theorems (sections 1-4) relate the adaptor to [meets_spec] = the property text for
+      one call (same result and inner state as the bare call, bar moved by [effect_of], no added
+      panic; [effect_of] is written from the text, independent of the code; Interpretations
+      I1-I4 in docs/C17.md).  All are at full strength for the current code:
+        C17_step, C17_transparent, C17_counts, C17_never_panics, C17_programs,
+        C17_exhaustion_iterator, C17_exhaustion_stream, C17_finish_behaviour, C17_rayon_consumer,
+        C17_rayon_producer.
+    * SPEC-SHAPE lemmas (section 2) are about [effect_of] alone (what the specification
+      prescribes): C17_err_counts_nothing, C17_pending_counts_nothing,
+      C17_poll_read_counts_filled_growth, C17_position_closed_form, C17_position_after_seek.
+    * TRANSCRIPTION lemmas about HEAD: C17_read_exact_err_counts_nothing (Interpretation I1),
+      C17_rayon_check_order.
+    * REGRESSION statements (section 5, all named C17_pre_fix_...) are about the HISTORICAL tree
+      before those four fixes ([pre_fix_code], 8b11f76) and say nothing about HEAD: the property
+      held outside four decidable classes ([_partial]), failed inside each ([_refuted], vm_compute
+      witnesses that HEAD must pass in the corpus of harness/src/bin/c17.rs), and what that code
+      did instead (transcription). *)
 From IndModel Require Import Base Adaptors.
 From IndProofs Require Import AdaptorsProofs.
 From Coq Require Import NArith List.
@@ -33,118 +30,43 @@ Import ListNotations.
 Open Scope N_scope.
 
 (* ------------------------------------------------------------------ *)
-(** * The property for one call *)
+(** * 1. The property for one call (HEAD, full strength) *)
 
-(** PATCHED TREE, full strength: every call on the adaptor returns what the bare object returns,
-    leaves the inner object in the same state, moves the bar by exactly the prescribed effect and
-    does not panic.  No call and no inner behaviour is excluded. *)
-Theorem C17_step_patched : forall (S E Item Data : Type) (I : inner S E Item Data)
+(** Every call on the adaptor returns what the bare object returns, leaves the inner object in
+    the same state, moves the bar by exactly the prescribed effect and does not panic.  No call
+    and no inner behaviour is excluded. *)
+Theorem C17_step : forall (S E Item Data : Type) (I : inner S E Item Data)
     (B : buffers Data) (s : S) (b : bar) (c : call Data),
-  meets_spec S E Item Data I patched_code B s b c.
-Proof. exact step_spec_patched. Qed.
-Print Assumptions C17_step_patched.
-
-(** EVERY TREE (in particular HEAD), restricted: the same, outside the decidable classes
-    [known_dev V] (HEAD: Stream::size_hint with a non-default inner hint; Stream end on a finished
-    bar; poll_read whose inner reader shrank ReadBuf::filled; poll_write_vectored;
-    is_write_vectored on a vectored inner writer). *)
-Theorem C17_step_partial : forall (S E Item Data : Type) (I : inner S E Item Data)
-    (V : variant) (B : buffers Data) (s : S) (b : bar) (c : call Data),
-  known_dev E Item Data V b c (snd (bare_step S E Item Data I s c)) = false ->
-  meets_spec S E Item Data I V B s b c.
-Proof. exact step_spec. Qed.
-Print Assumptions C17_step_partial.
-
-(** HEAD misses the property in each of those classes (witnesses on the harness's scripted object). *)
-Theorem C17_stream_size_hint_refuted :
-  exists s b, known_dev N N (list N) current_code b CStreamSizeHint
-                (snd (bare_step _ _ _ _ scripted s CStreamSizeHint)) = true
-    /\ ~ meets_spec _ _ _ _ scripted current_code sbuf s b CStreamSizeHint.
-Proof. exact stream_size_hint_refuted. Qed.
-Print Assumptions C17_stream_size_hint_refuted.
-
-Theorem C17_stream_end_refuted :
-  exists s b, known_dev N N (list N) current_code b CPollNext
-                (snd (bare_step _ _ _ _ scripted s CPollNext)) = true
-    /\ ~ meets_spec _ _ _ _ scripted current_code sbuf s b CPollNext.
-Proof. exact stream_end_refuted. Qed.
-Print Assumptions C17_stream_end_refuted.
-
-Theorem C17_poll_read_shrink_refuted :
-  exists s b, known_dev N N (list N) current_code b (CPollRead 2 8)
-                (snd (bare_step _ _ _ _ scripted s (CPollRead 2 8))) = true
-    /\ ~ meets_spec _ _ _ _ scripted current_code sbuf s b (CPollRead 2 8).
-Proof. exact poll_read_shrink_refuted. Qed.
-Print Assumptions C17_poll_read_shrink_refuted.
-
-Theorem C17_async_write_vectored_refuted :
-  exists s b, known_dev N N (list N) current_code b (CPollWriteVectored [[1; 2]; [3; 4; 5]])
-                (snd (bare_step _ _ _ _ scripted s (CPollWriteVectored [[1; 2]; [3; 4; 5]]))) = true
-    /\ ~ meets_spec _ _ _ _ scripted current_code sbuf s b (CPollWriteVectored [[1; 2]; [3; 4; 5]]).
-Proof. exact async_write_vectored_refuted. Qed.
-Print Assumptions C17_async_write_vectored_refuted.
-
-Theorem C17_is_write_vectored_refuted :
-  exists s b, known_dev N N (list N) current_code b CIsWriteVectored
-                (snd (bare_step _ _ _ _ scripted s CIsWriteVectored)) = true
-    /\ ~ meets_spec _ _ _ _ scripted current_code sbuf s b CIsWriteVectored.
-Proof. exact is_write_vectored_refuted. Qed.
-Print Assumptions C17_is_write_vectored_refuted.
+  meets_spec S E Item Data I head_code B s b c.
+Proof. exact step_spec_head. Qed.
+Print Assumptions C17_step.
 
 (** Transparency: value returned to the caller and inner state after the call are those of the
     bare call. *)
-Theorem C17_transparent_patched : forall (S E Item Data : Type) (I : inner S E Item Data)
+Theorem C17_transparent : forall (S E Item Data : Type) (I : inner S E Item Data)
     (B : buffers Data) (s : S) (b : bar) (c : call Data) (w' : W S) (r : ret E Item Data),
-  wrap_step S E Item Data I patched_code B (s, b) c = Ok (w', r) ->
+  wrap_step S E Item Data I head_code B (s, b) c = Ok (w', r) ->
   (fst w', r) = bare_step S E Item Data I s c.
-Proof. exact step_transparent_patched. Qed.
-Print Assumptions C17_transparent_patched.
-
-Theorem C17_transparent_partial : forall (S E Item Data : Type) (I : inner S E Item Data)
-    (V : variant) (B : buffers Data) (s : S) (b : bar) (c : call Data) (w' : W S)
-    (r : ret E Item Data),
-  known_dev E Item Data V b c (snd (bare_step S E Item Data I s c)) = false ->
-  wrap_step S E Item Data I V B (s, b) c = Ok (w', r) ->
-  (fst w', r) = bare_step S E Item Data I s c.
-Proof. exact step_transparent. Qed.
-Print Assumptions C17_transparent_partial.
+Proof. exact step_transparent_head. Qed.
+Print Assumptions C17_transparent.
 
 (** Exact counting: bar after = bar before + prescribed effect of what the bare call returned. *)
-Theorem C17_counts_patched : forall (S E Item Data : Type) (I : inner S E Item Data)
+Theorem C17_counts : forall (S E Item Data : Type) (I : inner S E Item Data)
     (B : buffers Data) (s : S) (b : bar) (c : call Data) (w' : W S) (r : ret E Item Data),
-  wrap_step S E Item Data I patched_code B (s, b) c = Ok (w', r) ->
+  wrap_step S E Item Data I head_code B (s, b) c = Ok (w', r) ->
   snd w' = apply_effect b (effect_of E Item Data c (snd (bare_step S E Item Data I s c))).
-Proof. exact step_counts_patched. Qed.
-Print Assumptions C17_counts_patched.
+Proof. exact step_counts_head. Qed.
+Print Assumptions C17_counts.
 
-Theorem C17_counts_partial : forall (S E Item Data : Type) (I : inner S E Item Data)
-    (V : variant) (B : buffers Data) (s : S) (b : bar) (c : call Data) (w' : W S)
-    (r : ret E Item Data),
-  known_dev E Item Data V b c (snd (bare_step S E Item Data I s c)) = false ->
-  wrap_step S E Item Data I V B (s, b) c = Ok (w', r) ->
-  snd w' = apply_effect b (effect_of E Item Data c (snd (bare_step S E Item Data I s c))).
-Proof. exact step_counts. Qed.
-Print Assumptions C17_counts_partial.
-
-(** Panics.  The patched adaptor never adds one; a tree without the saturating patch adds one in
-    exactly one situation (inner AsyncRead shrank ReadBuf::filled; builds with overflow checks). *)
-Theorem C17_never_panics_patched : forall (S E Item Data : Type) (I : inner S E Item Data)
+(** The adaptor never adds a panic of its own. *)
+Theorem C17_never_panics : forall (S E Item Data : Type) (I : inner S E Item Data)
     (B : buffers Data) (s : S) (b : bar) (c : call Data),
-  ~ exists site, wrap_step S E Item Data I patched_code B (s, b) c = Panic site.
-Proof. exact never_panics_patched. Qed.
-Print Assumptions C17_never_panics_patched.
-
-Theorem C17_panics_iff_readbuf_shrunk : forall (S E Item Data : Type) (I : inner S E Item Data)
-    (V : variant) (B : buffers Data) (s : S) (b : bar) (c : call Data),
-  (exists site, wrap_step S E Item Data I V B (s, b) c = Panic site) <->
-  (v_poll_read_saturating V = false /\
-   exists f cap d f' x, c = CPollRead f cap /\
-     snd (bare_step S E Item Data I s c) = RPollRead d f' (Ready x) /\ f' < f).
-Proof. exact step_panics_iff. Qed.
-Print Assumptions C17_panics_iff_readbuf_shrunk.
+  ~ exists site, wrap_step S E Item Data I head_code B (s, b) c = Panic site.
+Proof. exact never_panics_head. Qed.
+Print Assumptions C17_never_panics.
 
 (* ------------------------------------------------------------------ *)
-(** * What the specification prescribes (statements about [effect_of] only) *)
+(** * 2. What the specification prescribes (statements about [effect_of] only) *)
 
 (** Err => nothing is prescribed (all blocking calls, poll_write*/poll_flush/poll_shutdown/
     poll_complete/poll_fill_buf; read_exact by Interpretation I1; poll_read is not an "Err" in
@@ -174,8 +96,9 @@ Theorem C17_poll_read_counts_filled_growth : forall (S E Item Data : Type) (I : 
 Proof. exact poll_read_counts. Qed.
 Print Assumptions C17_poll_read_counts_filled_growth.
 
-(** INTERPRETATION I1 (not the property text; see docs/C17.md "Interpretations"): read_exact
-    returning Err counts 0, whatever [d] the inner reader had already put into the buffer. *)
+(** INTERPRETATION I1 (a transcription lemma, not the property text; see docs/C17.md
+    "Interpretations"): read_exact returning Err counts 0, whatever [d] the inner reader had
+    already put into the buffer. *)
 Theorem C17_read_exact_err_counts_nothing : forall (S E Item Data : Type) (I : inner S E Item Data)
     (s : S) (b : bar) (n : N) (s' : S) (d : Data) (e : E),
   i_read_exact I s n = (s', (d, IoErr e)) ->
@@ -184,52 +107,19 @@ Proof. exact read_exact_err_counts_nothing. Qed.
 Print Assumptions C17_read_exact_err_counts_nothing.
 
 (* ------------------------------------------------------------------ *)
-(** * Transcription of HEAD in the deviating classes *)
+(** * 3. Whole callers ("every chunking", std's default methods, io::copy ...) *)
 
-Theorem C17_stream_size_hint_default : forall (S E Item Data : Type) (I : inner S E Item Data)
-    (B : buffers Data) (w : W S),
-  wrap_step S E Item Data I current_code B w CStreamSizeHint = Ok (w, RHint (0, None)).
-Proof. exact stream_size_hint_default. Qed.
-Print Assumptions C17_stream_size_hint_default.
-
-Theorem C17_poll_write_vectored_default : forall (S E Item Data : Type) (I : inner S E Item Data)
-    (B : buffers Data) (w : W S) (ds : list Data),
-  wrap_step S E Item Data I current_code B w (CPollWriteVectored ds) =
-  wrap_step S E Item Data I current_code B w (CPollWrite (first_nonempty Data B ds)).
-Proof. exact poll_write_vectored_default. Qed.
-Print Assumptions C17_poll_write_vectored_default.
-
-Theorem C17_is_write_vectored_default : forall (S E Item Data : Type) (I : inner S E Item Data)
-    (B : buffers Data) (w : W S),
-  wrap_step S E Item Data I current_code B w CIsWriteVectored = Ok (w, RBool false).
-Proof. exact is_write_vectored_default. Qed.
-Print Assumptions C17_is_write_vectored_default.
-
-(* ------------------------------------------------------------------ *)
-(** * Whole callers ("every chunking", std's default methods, io::copy ...) *)
-
-(** PATCHED TREE, full strength: for EVERY adaptive program over the calls the run through the
-    adaptor returns the same trace of results, leaves the same inner state, and the bar is the fold
-    of the prescribed effects over that trace. *)
-Theorem C17_programs_patched : forall (S E Item Data : Type) (I : inner S E Item Data)
+(** HEAD, full strength: for EVERY adaptive program over the calls the run through the adaptor
+    returns the same trace of results, leaves the same inner state, and the bar is the fold of the
+    prescribed effects over that trace. *)
+Theorem C17_programs : forall (S E Item Data : Type) (I : inner S E Item Data)
     (B : buffers Data) (p : prog E Item Data) (s : S) (b : bar),
-  run_wrap S E Item Data I patched_code B p (s, b) =
+  run_wrap S E Item Data I head_code B p (s, b) =
     Ok ((fst (run_bare S E Item Data I p s),
          bar_after E Item Data b (snd (run_bare S E Item Data I p s))),
         snd (run_bare S E Item Data I p s)).
-Proof. exact prog_spec_patched. Qed.
-Print Assumptions C17_programs_patched.
-
-(** EVERY TREE, restricted to programs whose bare run never enters a [known_dev] class. *)
-Theorem C17_programs_partial : forall (S E Item Data : Type) (I : inner S E Item Data)
-    (V : variant) (B : buffers Data) (p : prog E Item Data) (s : S) (b : bar),
-  trace_ok E Item Data V b (snd (run_bare S E Item Data I p s)) = true ->
-  run_wrap S E Item Data I V B p (s, b) =
-    Ok ((fst (run_bare S E Item Data I p s),
-         bar_after E Item Data b (snd (run_bare S E Item Data I p s))),
-        snd (run_bare S E Item Data I p s)).
-Proof. exact prog_spec. Qed.
-Print Assumptions C17_programs_partial.
+Proof. exact prog_spec_head. Qed.
+Print Assumptions C17_programs.
 
 (** Closed form: over a trace with no seek and no end, position = start + everything the inner
     object transferred, mod 2^64; length, status, message untouched. *)
@@ -251,9 +141,9 @@ Proof. exact bar_after_seek_then_adds. Qed.
 Print Assumptions C17_position_after_seek.
 
 (* ------------------------------------------------------------------ *)
-(** * Exhaustion *)
+(** * 4. Exhaustion and rayon (HEAD, full strength) *)
 
-(** Blocking iterators (next and next_back), every tree: None finishes an unfinished bar with
+(** Blocking iterators (next and next_back): None finishes an unfinished bar with
     finish_using_style, leaves a finished bar alone; the bar is finished afterwards. *)
 Theorem C17_exhaustion_iterator : forall (S E Item Data : Type) (I : inner S E Item Data)
     (s : S) (b : bar) (s' : S) (back : bool),
@@ -265,22 +155,14 @@ Theorem C17_exhaustion_iterator : forall (S E Item Data : Type) (I : inner S E I
 Proof. exact next_none_finishes. Qed.
 Print Assumptions C17_exhaustion_iterator.
 
-(** Streams, patched tree: the same rule. *)
-Theorem C17_exhaustion_stream_patched : forall (S E Item Data : Type) (I : inner S E Item Data)
+(** Streams: the same rule. *)
+Theorem C17_exhaustion_stream : forall (S E Item Data : Type) (I : inner S E Item Data)
     (s : S) (b : bar) (s' : S),
   i_poll_next I s = (s', Ready None) ->
-  w_poll_next S E Item Data I patched_code (s, b) =
+  w_poll_next S E Item Data I head_code (s, b) =
     ((s', if bar_is_finished b then b else bar_finish_using_style b), Ready None).
-Proof. exact poll_next_none_patched. Qed.
-Print Assumptions C17_exhaustion_stream_patched.
-
-(** Streams, HEAD (transcription; deviation D-b): Ready(None) ALWAYS runs finish_using_style. *)
-Theorem C17_exhaustion_stream_current : forall (S E Item Data : Type) (I : inner S E Item Data)
-    (s : S) (b : bar) (s' : S),
-  i_poll_next I s = (s', Ready None) ->
-  w_poll_next S E Item Data I current_code (s, b) = ((s', bar_finish_using_style b), Ready None).
-Proof. exact poll_next_none_current. Qed.
-Print Assumptions C17_exhaustion_stream_current.
+Proof. exact poll_next_none_head. Qed.
+Print Assumptions C17_exhaustion_stream.
 
 (** "according to its finish behaviour": what finish_using_style leaves in the getters. *)
 Theorem C17_finish_behaviour : forall b : bar,
@@ -295,16 +177,7 @@ Theorem C17_finish_behaviour : forall b : bar,
 Proof. exact finish_using_style_spec. Qed.
 Print Assumptions C17_finish_behaviour.
 
-(** D-b is visible through the getters: a second finish can move the position of a finished bar. *)
-Theorem C17_stream_refinish_observable :
-  exists b, bar_is_finished b = true /\ b_pos (bar_finish_using_style b) <> b_pos b.
-Proof. exact stream_refinish_observable. Qed.
-Print Assumptions C17_stream_refinish_observable.
-
-(* ------------------------------------------------------------------ *)
-(** * rayon (the same in every tree) *)
-
-(** Consumer path (drive, drive_unindexed): for every base consumer, every split tree
+(** rayon, consumer path (drive, drive_unindexed): for every base consumer, every split tree
     (split_at / split_off_left+to_reducer / leaves folding any items) and EVERY schedule of the
     leaves on the shared atomic position: result = the base consumer's result, position = start +
     number of items consumed (mod 2^64), nothing else touched (in particular not finished).
@@ -325,7 +198,7 @@ Theorem C17_rayon_consumer : forall (Item C F R Res : Type)
 Proof. exact rayon_consumer_count. Qed.
 Print Assumptions C17_rayon_consumer.
 
-(** Producer path (with_producer; after fix 3528467): for every base producer, every split
+(** rayon, producer path (with_producer; after fix 3528467): for every base producer, every split
     tree, every sequence of next/next_back on each part and EVERY schedule: the parts yield the
     same items and end in the same iterator states, position = start + number of items yielded. *)
 Theorem C17_rayon_producer : forall (Item P It : Type)
@@ -349,6 +222,141 @@ Proof. exact iter_inc_spec. Qed.
 Print Assumptions C17_rayon_check_order.
 
 (* ------------------------------------------------------------------ *)
+(** * 5. REGRESSION: the four defects fixed by 7fc986e 3a319c2 c811d79 2747e49 *)
+(** Everything below is about the HISTORICAL code before those commits ([pre_fix_code], or any
+    [variant] lacking some of the fixes) and is kept as documentation of what was wrong and as a
+    guard: the witnesses are in the corpus of c17.rs, where the current code must pass them and a
+    reappearing class is a plain VIOLATION.  None of these theorems restricts what sections 1-4
+    say about HEAD ([known_dev head_code] is empty). *)
+
+(** Any variant (in particular the pre-fix tree), restricted: the property held outside the
+    decidable classes [known_dev V] of the fixes that variant lacks (pre-fix: Stream::size_hint
+    with a non-default inner hint; Stream end on a finished bar; poll_read whose inner reader
+    shrank ReadBuf::filled; poll_write_vectored; is_write_vectored on a vectored inner writer). *)
+Theorem C17_pre_fix_step_partial : forall (S E Item Data : Type) (I : inner S E Item Data)
+    (V : variant) (B : buffers Data) (s : S) (b : bar) (c : call Data),
+  known_dev E Item Data V b c (snd (bare_step S E Item Data I s c)) = false ->
+  meets_spec S E Item Data I V B s b c.
+Proof. exact step_spec. Qed.
+Print Assumptions C17_pre_fix_step_partial.
+
+Theorem C17_pre_fix_transparent_partial : forall (S E Item Data : Type) (I : inner S E Item Data)
+    (V : variant) (B : buffers Data) (s : S) (b : bar) (c : call Data) (w' : W S)
+    (r : ret E Item Data),
+  known_dev E Item Data V b c (snd (bare_step S E Item Data I s c)) = false ->
+  wrap_step S E Item Data I V B (s, b) c = Ok (w', r) ->
+  (fst w', r) = bare_step S E Item Data I s c.
+Proof. exact step_transparent. Qed.
+Print Assumptions C17_pre_fix_transparent_partial.
+
+Theorem C17_pre_fix_counts_partial : forall (S E Item Data : Type) (I : inner S E Item Data)
+    (V : variant) (B : buffers Data) (s : S) (b : bar) (c : call Data) (w' : W S)
+    (r : ret E Item Data),
+  known_dev E Item Data V b c (snd (bare_step S E Item Data I s c)) = false ->
+  wrap_step S E Item Data I V B (s, b) c = Ok (w', r) ->
+  snd w' = apply_effect b (effect_of E Item Data c (snd (bare_step S E Item Data I s c))).
+Proof. exact step_counts. Qed.
+Print Assumptions C17_pre_fix_counts_partial.
+
+(** ... and for programs whose bare run never entered such a class. *)
+Theorem C17_pre_fix_programs_partial : forall (S E Item Data : Type) (I : inner S E Item Data)
+    (V : variant) (B : buffers Data) (p : prog E Item Data) (s : S) (b : bar),
+  trace_ok E Item Data V b (snd (run_bare S E Item Data I p s)) = true ->
+  run_wrap S E Item Data I V B p (s, b) =
+    Ok ((fst (run_bare S E Item Data I p s),
+         bar_after E Item Data b (snd (run_bare S E Item Data I p s))),
+        snd (run_bare S E Item Data I p s)).
+Proof. exact prog_spec. Qed.
+Print Assumptions C17_pre_fix_programs_partial.
+
+(** The pre-fix tree missed the property in each of those classes (witnesses on the harness's
+    scripted object). *)
+(** 7fc986e: Stream::size_hint was futures' default (0, None). *)
+Theorem C17_pre_fix_stream_size_hint_refuted :
+  exists s b, known_dev N N (list N) pre_fix_code b CStreamSizeHint
+                (snd (bare_step _ _ _ _ scripted s CStreamSizeHint)) = true
+    /\ ~ meets_spec _ _ _ _ scripted pre_fix_code sbuf s b CStreamSizeHint.
+Proof. exact pre_fix_stream_size_hint_refuted. Qed.
+Print Assumptions C17_pre_fix_stream_size_hint_refuted.
+
+(** 3a319c2: a stream ending on a finished bar finished it again. *)
+Theorem C17_pre_fix_stream_end_refuted :
+  exists s b, known_dev N N (list N) pre_fix_code b CPollNext
+                (snd (bare_step _ _ _ _ scripted s CPollNext)) = true
+    /\ ~ meets_spec _ _ _ _ scripted pre_fix_code sbuf s b CPollNext.
+Proof. exact pre_fix_stream_end_refuted. Qed.
+Print Assumptions C17_pre_fix_stream_end_refuted.
+
+(** c811d79: poll_read underflowed when the inner reader shrank ReadBuf::filled. *)
+Theorem C17_pre_fix_poll_read_shrink_refuted :
+  exists s b, known_dev N N (list N) pre_fix_code b (CPollRead 2 8)
+                (snd (bare_step _ _ _ _ scripted s (CPollRead 2 8))) = true
+    /\ ~ meets_spec _ _ _ _ scripted pre_fix_code sbuf s b (CPollRead 2 8).
+Proof. exact pre_fix_poll_read_shrink_refuted. Qed.
+Print Assumptions C17_pre_fix_poll_read_shrink_refuted.
+
+(** 2747e49: poll_write_vectored / is_write_vectored were tokio's defaults. *)
+Theorem C17_pre_fix_async_write_vectored_refuted :
+  exists s b, known_dev N N (list N) pre_fix_code b (CPollWriteVectored [[1; 2]; [3; 4; 5]])
+                (snd (bare_step _ _ _ _ scripted s (CPollWriteVectored [[1; 2]; [3; 4; 5]]))) = true
+    /\ ~ meets_spec _ _ _ _ scripted pre_fix_code sbuf s b (CPollWriteVectored [[1; 2]; [3; 4; 5]]).
+Proof. exact pre_fix_async_write_vectored_refuted. Qed.
+Print Assumptions C17_pre_fix_async_write_vectored_refuted.
+
+Theorem C17_pre_fix_is_write_vectored_refuted :
+  exists s b, known_dev N N (list N) pre_fix_code b CIsWriteVectored
+                (snd (bare_step _ _ _ _ scripted s CIsWriteVectored)) = true
+    /\ ~ meets_spec _ _ _ _ scripted pre_fix_code sbuf s b CIsWriteVectored.
+Proof. exact pre_fix_is_write_vectored_refuted. Qed.
+Print Assumptions C17_pre_fix_is_write_vectored_refuted.
+
+(** What the pre-fix code did instead (transcription lemmas). *)
+(** A variant without c811d79 panics in exactly one situation (inner AsyncRead shrank
+    ReadBuf::filled; builds with overflow checks). *)
+Theorem C17_pre_fix_panics_iff_readbuf_shrunk : forall (S E Item Data : Type) (I : inner S E Item Data)
+    (V : variant) (B : buffers Data) (s : S) (b : bar) (c : call Data),
+  (exists site, wrap_step S E Item Data I V B (s, b) c = Panic site) <->
+  (v_poll_read_saturating V = false /\
+   exists f cap d f' x, c = CPollRead f cap /\
+     snd (bare_step S E Item Data I s c) = RPollRead d f' (Ready x) /\ f' < f).
+Proof. exact step_panics_iff. Qed.
+Print Assumptions C17_pre_fix_panics_iff_readbuf_shrunk.
+
+Theorem C17_pre_fix_stream_size_hint_default : forall (S E Item Data : Type) (I : inner S E Item Data)
+    (B : buffers Data) (w : W S),
+  wrap_step S E Item Data I pre_fix_code B w CStreamSizeHint = Ok (w, RHint (0, None)).
+Proof. exact pre_fix_stream_size_hint_default. Qed.
+Print Assumptions C17_pre_fix_stream_size_hint_default.
+
+Theorem C17_pre_fix_poll_write_vectored_default : forall (S E Item Data : Type) (I : inner S E Item Data)
+    (B : buffers Data) (w : W S) (ds : list Data),
+  wrap_step S E Item Data I pre_fix_code B w (CPollWriteVectored ds) =
+  wrap_step S E Item Data I pre_fix_code B w (CPollWrite (first_nonempty Data B ds)).
+Proof. exact pre_fix_poll_write_vectored_default. Qed.
+Print Assumptions C17_pre_fix_poll_write_vectored_default.
+
+Theorem C17_pre_fix_is_write_vectored_default : forall (S E Item Data : Type) (I : inner S E Item Data)
+    (B : buffers Data) (w : W S),
+  wrap_step S E Item Data I pre_fix_code B w CIsWriteVectored = Ok (w, RBool false).
+Proof. exact pre_fix_is_write_vectored_default. Qed.
+Print Assumptions C17_pre_fix_is_write_vectored_default.
+
+(** Ready(None) ALWAYS ran finish_using_style ... *)
+Theorem C17_pre_fix_exhaustion_stream : forall (S E Item Data : Type) (I : inner S E Item Data)
+    (s : S) (b : bar) (s' : S),
+  i_poll_next I s = (s', Ready None) ->
+  w_poll_next S E Item Data I pre_fix_code (s, b) = ((s', bar_finish_using_style b), Ready None).
+Proof. exact poll_next_none_pre_fix. Qed.
+Print Assumptions C17_pre_fix_exhaustion_stream.
+
+(** ... which was visible through the getters: a second finish can move the position of a
+    finished bar. *)
+Theorem C17_pre_fix_stream_refinish_observable :
+  exists b, bar_is_finished b = true /\ b_pos (bar_finish_using_style b) <> b_pos b.
+Proof. exact stream_refinish_observable. Qed.
+Print Assumptions C17_pre_fix_stream_refinish_observable.
+
+(* ------------------------------------------------------------------ *)
 (** Non-vacuity: the hypotheses are met by non-trivial values (the harness' scripted object). *)
 
 Definition ex_s0 : sstate :=
@@ -369,15 +377,15 @@ Definition ex_prog : prog N N (list N) :=
   end)))))).
 
 Example C17_nonvacuous_program :
-  trace_ok N N (list N) current_code ex_b0 (snd (run_bare _ _ _ _ scripted ex_prog ex_s0)) = true
+  trace_ok N N (list N) head_code ex_b0 (snd (run_bare _ _ _ _ scripted ex_prog ex_s0)) = true
   /\ length (snd (run_bare _ _ _ _ scripted ex_prog ex_s0)) = 7%nat
-  /\ match run_wrap _ _ _ _ scripted current_code sbuf ex_prog (ex_s0, ex_b0) with
+  /\ match run_wrap _ _ _ _ scripted head_code sbuf ex_prog (ex_s0, ex_b0) with
      | Ok ((_, b), _) => b_pos b = 20          (* seek to 9, +7 read_exact, +4 written *)
      | Panic _ => False
      end.
 Proof. vm_compute. repeat split. Qed.
 
-(* a caller that walks through all four classes in which HEAD deviates: stream hint, stream end
+(* a caller that walks through all four classes in which the pre-fix code deviated: stream hint, stream end
    twice (the second time on the bar the first end finished), a vectored async write, a poll_read
    on a reader that shrinks the filled region *)
 Definition ex_prog_dev : prog N N (list N) :=
@@ -391,10 +399,10 @@ Definition ex_prog_dev : prog N N (list N) :=
 Definition ex_s1 : sstate :=
   {| s_evs := [EvItem 5; EvEnd; EvEnd; EvN 4; EvShrink 1]; s_ctr := 0; s_sink := 0 |}.
 
-Example C17_nonvacuous_patched_program :
-  trace_ok N N (list N) current_code (bar0 (Some 10) 0 AndLeave)
+Example C17_nonvacuous_program_through_fixed_classes :
+  trace_ok N N (list N) pre_fix_code (bar0 (Some 10) 0 AndLeave)
            (snd (run_bare _ _ _ _ scripted ex_prog_dev ex_s1)) = false
-  /\ match run_wrap _ _ _ _ scripted patched_code sbuf ex_prog_dev (ex_s1, bar0 (Some 10) 0 AndLeave) with
+  /\ match run_wrap _ _ _ _ scripted head_code sbuf ex_prog_dev (ex_s1, bar0 (Some 10) 0 AndLeave) with
      | Ok ((s, b), t) => b_pos b = 14 /\ s_ctr s = 4 /\ length t = 7%nat
                          (* item +1, end: := 10, end again: untouched, +4 written across both slices, shrink: +0 *)
      | Panic _ => False
@@ -414,9 +422,10 @@ Example C17_nonvacuous_exhaustion :
   /\ b_pos (snd (fst (w_next _ _ _ _ scripted (s, ex_b0)))) = 10.
 Proof. vm_compute. repeat split. Qed.
 
-Example C17_nonvacuous_readbuf_shrunk :
+(* regression witness of c811d79 on the pre-fix model *)
+Example C17_nonvacuous_pre_fix_readbuf_shrunk :
   let s := {| s_evs := [EvShrink 1]; s_ctr := 0; s_sink := 0 |} in
-  wrap_step _ _ _ _ scripted current_code sbuf (s, ex_b0) (CPollRead 2 8) = Panic 1.
+  wrap_step _ _ _ _ scripted pre_fix_code sbuf (s, ex_b0) (CPollRead 2 8) = Panic 1.
 Proof. reflexivity. Qed.
 
 (* a sum consumer split twice (indexed and unindexed), three leaves, a non-sequential schedule *)
